@@ -279,6 +279,19 @@ func (r *SexpArray) Type() *RegisteredType {
 }
 
 func (arr *SexpArray) SexpString(ps *PrintState) string {
+	// an array can (through aset, or by holding a slice selector of
+	// itself) contain itself; printing it used to recurse until the Go
+	// stack overflowed, a fatal error no recover() can catch.
+	if ps == nil {
+		ps = NewPrintState()
+	}
+	if arr != nil {
+		if ps.GetSeen(arr) {
+			return "[...]"
+		}
+		ps.SetSeen(arr, "SexpArray being printed")
+		defer delete(ps.Seen, arr)
+	}
 	indInner := ""
 	indent := ps.GetIndent()
 	innerPs := ps.AddIndent(4) // generates a fresh new PrintState
